@@ -19,6 +19,7 @@ type Prover struct {
 	// State
 	tpk                 PK
 	publicKeysOfParties map[uint16]PK
+	evaluationPoints    map[uint16]int64
 	c                   *math.Curve
 	msgLen              int
 	pp                  PP
@@ -39,6 +40,7 @@ func (p *Prover) Init(curve *math.Curve, msgLen int, thresholdPK []byte, parties
 	}
 
 	p.publicKeysOfParties = make(map[uint16]PK)
+	p.evaluationPoints = make(map[uint16]int64)
 
 	for i, party := range parties {
 		var pk PK
@@ -47,6 +49,9 @@ func (p *Prover) Init(curve *math.Curve, msgLen int, thresholdPK []byte, parties
 		}
 
 		p.publicKeysOfParties[party] = pk
+		// The key generation evaluates its polynomials at the position of a party in the party list,
+		// not at the party's identifier.
+		p.evaluationPoints[party] = int64(i + 1)
 	}
 
 	if err := p.tpk.fromBytes(curve, tpk.TPK); err != nil {
@@ -99,7 +104,11 @@ func (p *Prover) ProveKnowledgeOfSignature(us *UnblindingSecret, signers []uint1
 
 	evaluationPoints := make([]int64, len(signers))
 	for i, signer := range signers {
-		evaluationPoints[i] = int64(signer)
+		point, exists := p.evaluationPoints[signer]
+		if !exists {
+			panic(fmt.Sprintf("signer %d is not among the parties the prover was initialized with", signer))
+		}
+		evaluationPoints[i] = point
 	}
 
 	// initialize hPrime to be zero
@@ -107,8 +116,8 @@ func (p *Prover) ProveKnowledgeOfSignature(us *UnblindingSecret, signers []uint1
 	hPrime.Sub(hPrime)
 
 	// Combine all witnesses into a single one with the lagrange coefficients
-	for i, signer := range signers {
-		l := lagrangeCoefficient(int64(signer), evaluationPoints...)
+	for i := range signers {
+		l := lagrangeCoefficient(evaluationPoints[i], evaluationPoints...)
 		w := math.G1(witnesses[i])
 		hPrime.Add(w.Mul(l))
 	}
